@@ -65,8 +65,8 @@ PROPS = {
     'C10': {
         'verus': [U_PER, U_BITS_DEP],
         'search_groups': ['per', 'bits'],
-        'kani_thorough': [('per_cwn', 900, True), ('per_nnbi_constrained', 900, True), ('per_semi', 900, True), ('per_nsnnwn', 900, True),
-                          ('per_uwn', 900, True), ('per_2c', 900, True), ('per_length_determinant', 1200, True), ('per_index', 900, True)],
+        'kani_thorough': [('per_cwn', 2400, True), ('per_nnbi_constrained', 3000, True), ('per_semi', 2400, True), ('per_nsnnwn', 2400, True),
+                          ('per_uwn', 2400, True), ('per_2c', 2400, True)],
         'assumptions': PER_ASSUMPTIONS + [
             'readers of 2\'s-complement / unconstrained whole numbers, OCTET STRING and BIT STRING carry the safety contract and exact bit consumption in Verus; '
             'their value round trip is discharged by the complete Kani harnesses per_2c / per_uwn (numbers) and is not yet under a Verus contract for the strings',
@@ -146,8 +146,8 @@ PROPS = {
     },
     'C02': {
         'verus': [U_UPER, U_PER, U_SCOPE, U_BITS_DEP, U_LEMMAS],
-        'kani_thorough': [('per_cwn', 900, True), ('per_nnbi_constrained', 900, True), ('per_semi', 900, True), ('per_nsnnwn', 900, True),
-                          ('per_uwn', 900, True), ('per_2c', 900, True), ('per_length_determinant', 1200, True), ('per_index', 900, True)],
+        'kani_thorough': [('per_cwn', 2400, True), ('per_nnbi_constrained', 3000, True), ('per_semi', 2400, True), ('per_nsnnwn', 2400, True),
+                          ('per_uwn', 2400, True), ('per_2c', 2400, True)],
         'search_groups': ['zoo', 'per', 'seq'],
         'bounded_search': [
             ('zoo', 'BOUNDED in programs: 6 generated types through the real proc macro, bit-exact against hand-composed X.691 reference encodings (see C01)'),
@@ -168,10 +168,12 @@ PROPS = {
     'C04': {
         'verus': [U_BITS, U_PER, U_SCOPE, U_UPER],
         'kani_quick': [('der_readers_total', 300, True), ('proto_readers_total', 300, True)],
-        'search_groups': ['decode', 'bits'],
+        'search_groups': ['decode', 'bits', 'protodec'],
         'bounded_search': [('decode', 'SAMPLED (not exhaustive, not a proof): random, truncated and bit-flipped input, aligned and unaligned, declared bit length <= 8*len, through every method of '
                                       'the real `impl Reader for UperReader` (15 type kinds x 9 size / 10 number / 5 enumerated / 4 choice constraint variants, nested SEQUENCE / SEQUENCE OF / open types); '
-                                      'contract: Ok or Err, no panic / abort, cursor inside the input, a decoded value never larger than the bits consumed for it')],
+                                      'contract: Ok or Err, no panic / abort, cursor inside the input, a decoded value never larger than the bits consumed for it'),
+                           ('protodec', 'SAMPLED (not exhaustive, not a proof): random bytes and truncated / bit-flipped / overwritten / extended valid encodings through the real ProtobufReader for 9 generated types '
+                                        '(numbers, OPTIONAL members, embedded messages, lists, CHOICE in CHOICE, ENUMERATED, BIT STRING, root SEQUENCE OF): Ok or Err, no panic, returns within 5 s')],
         'assumptions': [
             'Verus proves, for every function under contract, absence of panics (index, slice range, arithmetic overflow, unwrap, assert!) and termination (decreases on every loop), the cursor '
             'invariant pos <= limit <= 8*len on exit -- also on Err -- and that the input bytes and the visible limit are unchanged (frame): bit layer, all 13 PackedRead methods, Scope::read_from_field, '
